@@ -432,12 +432,23 @@ impl<'a> FnGen<'a> {
         while x == z || x == y { x = *self.rng.pick(&regs); }
         let m1 = *self.rng.pick(&["INT_ADD", "INT_SUB", "INT_XOR"]);
         let m2 = *self.rng.pick(&["INT_ADD", "INT_SUB"]);
-        let first = if self.rng.chance(1, 3) { copy(reg(y, 8), cst(self.small_const(), 8)) } else { bin(reg(y, 8), m1, reg(z, 8), cst(8 * self.rng.below(5), 8)) };
+        let first = match self.rng.below(3) {
+            0 => copy(reg(y, 8), cst(*self.rng.pick(&[0u64, 0, 8, 0x10, 0x5000]), 8)),
+            1 => copy(reg(y, 8), reg(z, 8)),
+            _ => bin(reg(y, 8), m1, reg(z, 8), cst(8 * self.rng.below(5), 8)),
+        };
         let v = vec![vec![first], vec![bin(reg(x, 8), m2, reg(y, 8), cst(8 * self.rng.below(5), 8))]];
-        let t = tmp("$U3300", 8);
+        // successor block: accesses through x and through y (the syntactic form of the address decides what the
+        // NULL-dereference handling specialises afterwards)
         let val = self.r64();
-        self.carry.push(vec![bin(t.clone(), "INT_ADD", reg(x, 8), cst(8, 8)), store(t, val.clone())]);
-        self.carry.push(vec![store(reg(x, 8), val)]);
+        if self.rng.chance(1, 2) {
+            self.carry.push(vec![store(reg(x, 8), val.clone())]);
+            self.carry.push(vec![store(reg(y, 8), val)]);
+        } else {
+            let t = tmp("$U3300", 8);
+            self.carry.push(vec![bin(t.clone(), "INT_ADD", reg(x, 8), cst(8, 8)), store(t, val.clone())]);
+            self.carry.push(vec![load(val, reg(y, 8))]);
+        }
         v
     }
     fn straight(&mut self, n: u64) -> Vec<Vec<Op>> {
